@@ -286,6 +286,16 @@ def _lax_constructor(m: ModuleInfo, lax: ast.FunctionDef, strict_fn: ast.Functio
     if len(ctors) != 1:
         return None
     ctor = next(iter(ctors))
+    # every application of the constructor receives the datum ITSELF: a rewritten datum (`C(data.translate(...))`, `C(repr(data))`)
+    # is loaded to another value than the strict loader's C(data), or refused where strict accepts ("inf" -> "jnf")
+    for c in ast.walk(lax):
+        if isinstance(c, ast.Call) and norm(c.func) == ctor and len(c.args) == 1 and norm(c.args[0]) != d \
+                and any(isinstance(x, ast.Name) and x.id == d for x in ast.walk(c.args[0])):
+            res.evaluated(f"scalar:lax-datum:{lax.name}", True)
+            res.add(Finding("C07", "SCALAR.lax-datum-rewritten", m.rel, lax.name, norm(c)[:100],
+                            f"the lax loader of {target} applies the constructor to `{norm(c.args[0])[:60]}`, not to the datum: strict mode "
+                            f"hands `{ctor}(data)` out for the same datum, so the two modes load different values or lax refuses what "
+                            "strict accepts", c.lineno))
 
     def canon(test: ast.expr, dn: str, rvars: Set[str]) -> str:
         t = norm(test)
